@@ -254,3 +254,53 @@ fn client_delete_all_answers(pp: &mut ParsedPacket) -> (n: usize)
     }
     n
 }
+
+// C08: renaming the question through the question cursor (compressed or pointer-free packet)
+fn client_set_qname(it: &mut QuestionIterator, name: &[u8]) -> (r: Result<(), Error>)
+    requires old(it).wf(), old(it).rr_iterator.offset.is_some(), old(it).pk().len() <= 0xffff,
+        (if old(it).pp().maybe_compressed { wf_packet(old(it).pk()) ==> uncompress_spec(old(it).pk()).len() <= 0xffff } else { pf_packet(old(it).pk()) }),
+    ensures
+        r.is_ok() ==> final(it).wf() && pf_packet(final(it).pk()) && !final(it).pp().maybe_compressed && final(it).rr_iterator.offset == Some(12usize)
+            && name_exp(final(it).pk(), 12) == name@.subrange(0, name_end(name@, 0).unwrap()),
+        final(it).tfin() == old(it).tfin(),
+{
+    hide(pf_rr); hide(pf_rrs); hide(pf_rrs_end); hide(pf_n_opt); hide(pf_packet); hide(opt_at); hide(pcs_walk); hide(rec_ok); hide(opts); hide(wf_bytes); hide(recs_all); hide(sec_end); hide(n_opt);
+    hide(ParsedPacket::wf); hide(walk); hide(skip_walk); hide(uncompress_spec); hide(bmap); hide(wf_packet); hide(exp);
+    let ghost pp0 = it.pp(); let ghost p = it.pk();
+    proof {
+        assert(pp0.packet.is_some() && wf_bytes(p)) by { reveal(ParsedPacket::wf); }
+        if pp0.maybe_compressed ==> wf_packet(p) {
+            lemma_unc_keeps_edns(pp0);
+            if pp0.maybe_compressed {
+                let u = uncompress_spec(p);
+                theorem_c05(p);
+                lemma_bmap_q(p);
+                lemma_un_pf_packet(p);
+                assert(be16(u, 4) == 1) by { assert(u.subrange(0, 12)[4] == p.subrange(0, 12)[4] && u.subrange(0, 12)[5] == p.subrange(0, 12)[5]); }
+                lemma_pcs_name_end(u, 12);
+                assert(12 + name_exp(p, 12).len() + 4 <= u.len()) by { reveal(pf_packet); }
+                assert forall|mid: ParsedPacket| #[trigger] after_unc(mid, pp0) implies mid_ok::<QuestionIterator>(mid, 12, QuestionIterator::tne_of(mid.bytes(), 12), QuestionIterator::tnext_of(mid.bytes(), 12)) by { lemma_q_cursor(mid); }
+            } else {
+                lemma_q_cursor(pp0);
+                assert forall|mid: ParsedPacket| #[trigger] after_unc(mid, pp0) implies mid_ok::<QuestionIterator>(mid, 12, it.rr_iterator.name_end as int, it.rr_iterator.offset_next as int) by {
+                    lemma_mid_ok_eq::<QuestionIterator>(mid, pp0, 12, it.rr_iterator.name_end as int, it.rr_iterator.offset_next as int); }
+            }
+        }
+    }
+    let r = it.set_raw_name(name);
+    proof {
+        if r.is_ok() {
+            let nm = name@.subrange(0, name_end(name@, 0).unwrap());
+            lemma_own_name(name@);
+            let mid = choose|mid: ParsedPacket| #[trigger] after_unc(mid, pp0) && named(it.pp(), mid, 12, (if pp0.maybe_compressed { QuestionIterator::tne_of(mid.bytes(), 12) } else { old(it).rr_iterator.name_end as int }), nm);
+            if !pp0.maybe_compressed { lemma_wf_eq(mid, pp0); }
+            lemma_q_cursor(mid);
+            lemma_q_named_wf(it.pp(), mid, nm);
+            let v = it.pk();
+            lemma_name_exp_id(v, 12);
+            assert(v.subrange(12, 12 + nm.len() as int) =~= nm);
+            assert(it.wf()) by { reveal(ParsedPacket::wf); }
+        }
+    }
+    r
+}
